@@ -1986,7 +1986,7 @@ package gomatrixserverlib
 //@ func sortJSONObject$1
 //@   property C01
 //@   ensures never-stops: result
-//@   ensures member-recorded: len(post_entries) == len(entries) + 1 && post_entries[len(entries)].key == key.String() && post_entries[len(entries)].value == value
+//@   ensures member-recorded: len(post_entries) == len(entries) + 1 && post_entries[len(entries)].key == key.String() && post_entries[len(entries)].rawKey == key.Raw && post_entries[len(entries)].value == value
 //@   ensures earlier-members-kept: forall i int :: 0 <= i && i < len(entries) ==> post_entries[i] == entries[i]
 
 //@ func sortJSONObject$2
